@@ -90,6 +90,9 @@ static void gen_pls(Draw &d, Case &c) {
   M X = gen_exact_rank(d, n, p, r, d.coin(20));
   M Y(n, ny); auto yi = d.ivec((size_t)n * ny, -8, 8);
   for (int i = 0; i < n; i++) for (int j = 0; j < ny; j++) Y(i, j) = ykind == 0 ? (double)yi[(size_t)i * ny + j] / 2 : ykind == 1 ? 3.0 : ykind == 2 ? (double)(yi[(size_t)i * ny + j] > 0) : (double)(2 * X(i, 0) + (p > 1 ? X(i, 1) : 0) + j);
+  // mixed blocks: one response constant while the other one is not (in either position)
+  bool mixed = false;
+  if (ny == 2 && ykind != 1 && d.coin(35)) { int jc = (int)d.i(0, 1); double cv = (double)d.i(-3, 3); for (int i = 0; i < n; i++) Y(i, jc) = cv; mixed = true; c.tags.push_back(jc == 0 ? "first-response-constant" : "second-response-constant"); }
   c.p = {n, p, ny, nlv, xs, ys}; put(c, X); put(c, Y);
   Prep P = ref_preprocess(X, xs); int rank = numerical_rank(singular_values(P.X), 1e-9L);
   c.nontrivial = nlv > rank || ykind == 1 || dup_rows_pct(X) >= 50;
@@ -104,7 +107,7 @@ static void pred_pls(const Case &c) {
   int want = std::min(nlv, p);
   VF_CHECK((int)m->b->size == want && (int)m->xscores->col == want, "PLS returned %zu latent variables, %d requested (p=%d)", m->b->size, nlv, p);
   // the first latent variable is defined whenever X'Y of the preprocessed blocks is not null: finite, t = X0 w
-  Prep Px = ref_preprocess(X, xs), Py = ref_preprocess(Y, ys);
+  Prep Px = guarded_preprocess(X, xs), Py = guarded_preprocess(Y, ys);   // with the library's zero guard (scale < 1e-3 -> column 0)
   M C = mul(transpose(Px.X), Py.X);
   if (maxabs(C) > 1e-9L * (fro(Px.X) * fro(Py.X) + 1e-300L)) {
     for (int i = 0; i < n; i++) VF_CHECK(std::isfinite(m->xscores->data[i][0]), "x-score (%d,0) of the first (defined) latent variable is not finite", i);
@@ -112,6 +115,17 @@ static void pred_pls(const Case &c) {
     VF_CHECK(std::isfinite(m->b->data[0]), "b coefficient of the first (defined) latent variable is not finite");
     for (int i = 0; i < n; i++) { ld s = 0, sa = 0; for (int j = 0; j < p; j++) { s += Px.X(i, j) * m->xweights->data[j][0]; sa += fabsl(Px.X(i, j) * m->xweights->data[j][0]); } VF_CLOSE(m->xscores->data[i][0], s, 1e-9L * (sa + 1e-300L) + 1e-12L, "first x-score vs X0 w"); }
     for (int i = 0; i < n; i++) for (int j = 0; j < ny; j++) VF_CHECK(std::isfinite(m->recalculated_y->data[i][j]), "recalculated response (%d,%d) with one LV is not finite", i, j);
+    // same identities as in the regular case: the weight vector has unit length and maximises w'(X0'Y0 Y0'X0)w (it is the dominant
+    // eigenvector of that matrix, any vector of the eigenspace when the eigenvalue is repeated), so the score vector is not null
+    {
+      ld nw = 0; for (int j = 0; j < p; j++) nw += (ld)m->xweights->data[j][0] * m->xweights->data[j][0];
+      VF_CHECK(nw > 0, "first weight vector is null although X'Y is not (a defined latent variable came back null)");   // stored weights are rescaled by |p|: not unit length
+      M CCt = mul(C, transpose(C)); V ev; M evec; jacobi_eig(CCt, ev, evec);
+      ld q = 0; for (int a = 0; a < p; a++) for (int b2 = 0; b2 < p; b2++) q += (ld)m->xweights->data[a][0] * CCt(a, b2) * m->xweights->data[b2][0];
+      VF_CHECK(q / nw >= ev[0] * (1 - 1e-5L), "first weight vector: w'(X'Y Y'X)w / w'w = %.6Lg but the largest eigenvalue is %.6Lg", q / nw, ev[0]);
+      ld tt = 0; for (int i = 0; i < n; i++) tt += (ld)m->xscores->data[i][0] * m->xscores->data[i][0];
+      VF_CHECK(tt > 0, "first x-score vector is null although X'Y is not");
+    }
     tag("first-LV-defined");
   } else tag("first-LV-undefined(X'Y=0)");
   for (size_t k = 0; k < m->xvarexp->size; k++) VF_CHECK(!std::isnan(m->xvarexp->data[k]), "x explained variance of LV %zu is NaN", k);
